@@ -5,7 +5,7 @@ import re
 
 import vlib
 
-PROPS = ['Rangers.Props.C01', 'Rangers.Props.C01B', 'Rangers.Props.C01Sites']
+PROPS = ['Rangers.Props.C01', 'Rangers.Props.C01B', 'Rangers.Props.C01C', 'Rangers.Props.C01D', 'Rangers.Props.C01Sites']
 DRIVERS = ['C01']
 META = dict(
     level='proof',
@@ -15,9 +15,9 @@ META = dict(
               'orders (T-corr); searcher = N-fold re-execution of the real executor in fresh AccountDBs/contexts',
     level_text='machine-checked proof (Lean 4 kernel) of order/clock/cache independence of the modelled pipeline for all '
                'states, headers, transaction lists and iteration orders; partial for float arithmetic and goroutines',
-    level_note='EVM / miner executors enter the theorems as one uninterpreted deterministic function; reward float '
-               'expressions are uninterpreted numbers; the fork-flag lookup through the process-wide chain height is a '
-               'recorded finding',
+    level_note='EVM and miner apply/add/change-account executors enter the theorems as one uninterpreted deterministic '
+               'function (EVM steps are replayed from observation in the correspondence); only math.Pow of the reward '
+               'formula is uninterpreted; the fork-flag lookup through the process-wide chain height is a recorded finding',
     trusted_base=['Lean 4.33 kernel (+leanchecker in thorough)', 'gen/cmd/c01facts (go/ast, go/types inventory)',
                   'harness/cmd/c01 (scenario generator, leaf conversions StrToBigInt/HexToAddress/Float64ToBigInt taken '
                   'from the implementation)', 'Go runtime map-iteration randomisation (searcher)',
@@ -25,7 +25,7 @@ META = dict(
     assumptions=['situation != "casting" (the wall-clock cut-off only decides what the proposer packs)',
                  'the executors not interpreted by the model (EVM, miner operations) are deterministic functions of '
                  '(transaction, header, ledger) — supported by the site inventory and the N-fold searcher, not proved',
-                 'IEEE-754 double arithmetic of the reward formula gives the same bits on every replica',
+                 'math.Pow (inside getTotalReward) gives the same bits on every replica — the rest of the reward float arithmetic (uint64->float64, /, *, Float64ToBigInt, NextRewardHeight) is modelled bit-exactly and compared',
                  'refund escrow addresses sha256("refund"+height) do not collide and hold no balance of their own',
                  'every execution starts from a fresh AccountDB opened at the parent root (as checkStates does)'],
     rule='distinct op lines sent to both the real executor and the compiled model whose model answer is neither bad-op '
